@@ -26,6 +26,9 @@ def gen(rng, count):
         steps = rng.randint(3, 12)
         shx = rng.uniform(-1, 1)
         box = [f32(-6 + shx), f32(6 + shx), f32(-6), f32(6), f32(1.2e-3), f32(6.11e5)]
+        if k % 3 == 2:
+            # position and energy axes with different cell sizes (a phase is a POSITION offset)
+            box[2], box[3] = f32(rng.choice([-3.0, -9.0])), f32(rng.choice([3.0, 12.0]))
         sps = rng.choice([50, 200, 1000])
         angle = f32(2 * math.pi / sps)
         # "ampl"/"phase": one kind of noise only (a map cached on the other quantity goes stale)
